@@ -55,6 +55,7 @@ def strategy(kind):
     return st.fixed_dictionaries({
         "ser": st.sampled_from(["json", "msgpack", "cbor", "ubjson"]), "limit_exp": st.sampled_from([1, 1, 2, 3, 15] if kind == "rs" else [15]),
         "ws_limit": st.sampled_from([0, 1000, 2000]) if kind == "ws" else st.just(0),
+        "auto_frag": st.sampled_from([0, 0, 64, 512, 1000]) if kind == "ws" else st.just(0),
         "procs": st.lists(st.tuples(st.sampled_from(BEHAVIOURS), st.booleans(), st.integers(0, 3)), min_size=3, max_size=3),   # behaviour, wants details, n progress
         # how each procedure is registered: a plain callable, a bound method, or register(obj) of an object with a @wamp.register-decorated method
         # (the object may be an empty container or otherwise falsy: it is still the method's self)
@@ -85,6 +86,9 @@ class World:
             s.define(Defined, "com.myapp.error.defined")
         S = wamptx.make_session_class(self.events, {"onJoin": on_join})
         ws_opts = {"maxMessagePayloadSize": c["ws_limit"]} if c["ws_limit"] else None
+        if c.get("auto_frag"):
+            # outgoing auto-fragmentation (what ApplicationRunner / Component configure by default): the size limit is about the whole message
+            ws_opts = dict(ws_opts or {}, autoFragmentSize=c["auto_frag"])
         self.tx = wamptx.ClientTransport(c["kind"], c["ser"], S, peer_max_exp=c["limit_exp"], ws_opts=ws_opts)
         self.limit = (2 ** (9 + c["limit_exp"])) if c["kind"] == "rs" else (c["ws_limit"] or None)
         hello = self.tx.recv_raw()
